@@ -26,6 +26,17 @@ class Posterior(Distribution):
         super().__init__(**kwargs)
 
     @property
+    def name(self):
+        """ Name of the random variable of the posterior: that of the prior, unless a name was set explicitly. """
+        if not self._is_copy and getattr(self, '_name', None) is None:
+            return self.prior.name
+        return Distribution.name.fget(self)
+
+    @name.setter
+    def name(self, name):
+        Distribution.name.fset(self, name)
+
+    @property
     def data(self):
         return self.likelihood.data
 
